@@ -2134,7 +2134,6 @@ func (p *Posix) ListMultipartUploads(_ context.Context, mpu *s3.ListMultipartUpl
 	if mpu.UploadIdMarker != nil {
 		uploadIDMarker = *mpu.UploadIdMarker
 	}
-	keyMarkerInd, uploadIdMarkerFound := -1, false
 
 	for _, obj := range objs {
 		if !obj.IsDir() {
@@ -2170,12 +2169,6 @@ func (p *Posix) ListMultipartUploads(_ context.Context, mpu *s3.ListMultipartUpl
 			}
 
 			uploadID := upid.Name()
-			if !uploadIdMarkerFound && uploadIDMarker == uploadID {
-				uploadIdMarkerFound = true
-			}
-			if keyMarkerInd == -1 && objectName == keyMarker {
-				keyMarkerInd = len(uploads)
-			}
 
 			checksum, err := p.retrieveChecksums(nil, bucket, filepath.Join(metaTmpMultipartDir, obj.Name(), uploadID))
 			if err != nil && !errors.Is(err, meta.ErrNoSuchKey) {
@@ -2194,37 +2187,40 @@ func (p *Posix) ListMultipartUploads(_ context.Context, mpu *s3.ListMultipartUpl
 	}
 
 	maxUploads := int(*mpu.MaxUploads)
-	if (uploadIDMarker != "" && !uploadIdMarkerFound) || (keyMarker != "" && keyMarkerInd == -1) {
-		return s3response.ListMultipartUploadsResult{
-			Bucket:         bucket,
-			Delimiter:      delimiter,
-			KeyMarker:      keyMarker,
-			MaxUploads:     maxUploads,
-			Prefix:         prefix,
-			UploadIDMarker: uploadIDMarker,
-			Uploads:        []s3response.Upload{},
-		}, nil
-	}
 
+	// listing order: by key, uploads of one key by upload id
 	sort.SliceStable(uploads, func(i, j int) bool {
-		return uploads[i].Key < uploads[j].Key
+		if uploads[i].Key != uploads[j].Key {
+			return uploads[i].Key < uploads[j].Key
+		}
+		return uploads[i].UploadID < uploads[j].UploadID
 	})
 
-	for i := keyMarkerInd + 1; i < len(uploads); i++ {
+	for i := range uploads {
 		if maxUploads == 0 {
 			break
 		}
-		if keyMarker != "" && uploadIDMarker != "" && uploads[i].UploadID < uploadIDMarker {
-			continue
+		// the listing resumes after the marker position: keys greater than
+		// key-marker, and for key-marker itself the upload ids greater than
+		// upload-id-marker (none when only key-marker is given)
+		if keyMarker != "" {
+			if uploads[i].Key < keyMarker {
+				continue
+			}
+			if uploads[i].Key == keyMarker &&
+				(uploadIDMarker == "" || uploads[i].UploadID <= uploadIDMarker) {
+				continue
+			}
 		}
-		if i != len(uploads)-1 && len(resultUpds) == maxUploads {
+		if len(resultUpds) == maxUploads {
+			last := resultUpds[len(resultUpds)-1]
 			return s3response.ListMultipartUploadsResult{
 				Bucket:             bucket,
 				Delimiter:          delimiter,
 				KeyMarker:          keyMarker,
 				MaxUploads:         maxUploads,
-				NextKeyMarker:      resultUpds[i-1].Key,
-				NextUploadIDMarker: resultUpds[i-1].UploadID,
+				NextKeyMarker:      last.Key,
+				NextUploadIDMarker: last.UploadID,
 				IsTruncated:        true,
 				Prefix:             prefix,
 				UploadIDMarker:     uploadIDMarker,
